@@ -1,4 +1,8 @@
 CONSTANTS MaxLen = 4
           MaxLenX = 3
+          Kinds2 = {"req", "opt", "kwreq", "kwopt"}
+          Kinds3 = {"req", "opt", "kwreq", "kwopt"}
+          Kinds4 = {"req", "opt"}
+          MaxE4 = 4
 INIT Init
 NEXT NextGen
